@@ -447,7 +447,7 @@ def parameter_type_table(ctx, R, C, core):
         try:
             decl = A.deref(A.Interp(C, I, max_steps=200000).call_fn(fd, [t]))
             base = TS(["parameters", ".", "get", ("group", "Parenthesis", TS([("lit", "x")])), ".", "expect", ("group", "Parenthesis", TS([("lit", "m")]))])
-            expr = A.deref(A.Interp(C, I, max_steps=200000).call_fn(fe, [t, base]))
+            expr = A.deref(A.Interp(C, I, max_steps=200000).call_by_type(fe, [("str", t), ("TokenStream", base)]))
             got_decl = parse_decl(decl)
             got_expr = infer_expr(expr, accessors)
         except A.Unsupported as e:
